@@ -1227,6 +1227,128 @@ def precision_sources(tracker):
     return out
 
 
+# ------------------------------------------------------------------ masked ufuncs and raw allocations (C17, C20)
+
+FILLED_CTORS = {"np.zeros", "np.zeros_like", "np.ones", "np.ones_like", "np.full", "np.full_like"}
+RAW_CTORS = {"np.empty", "np.empty_like", "np.ndarray"}
+
+
+def _functions(tree):
+    """(label, FunctionDef) for module-level functions and methods"""
+    for node in tree.body:
+        if isinstance(node, ast.FunctionDef):
+            yield node.name, node
+        elif isinstance(node, ast.ClassDef):
+            for f in node.body:
+                if isinstance(f, ast.FunctionDef):
+                    yield fn_label(node.name, f), f
+
+
+def _out_init(fn, call, name):
+    """how the array `name`, given as `out=` of `call`, was created: the last plain assignment to it before the call"""
+    best = None
+    for node in ast.walk(fn):
+        if isinstance(node, ast.Assign) and len(node.targets) == 1 and isinstance(node.targets[0], ast.Name) \
+                and node.targets[0].id == name and node.lineno < call.lineno:
+            if best is None or node.lineno > best.lineno:
+                best = node
+    if best is None:
+        return ".unknown"
+    v = best.value
+    if isinstance(v, ast.Call):
+        ch = attr_chain(v.func)
+        if ch in FILLED_CTORS:
+            return ".filled"
+        if ch in RAW_CTORS:
+            return ".raw"
+    return ".computed"
+
+
+def gen_masked(trees):
+    calls, allocs = [], []
+    for mod, tree in trees.items():
+        for label, fn in _functions(tree):
+            ci = ai = 0
+            body_nodes = sorted((n for n in ast.walk(fn) if isinstance(n, ast.Call)), key=lambda n: (n.lineno, n.col_offset))
+            for node in body_nodes:
+                ch = attr_chain(node.func) or ""
+                if ch.startswith("np.") and any(kw.arg == "where" for kw in node.keywords):
+                    out = next((kw.value for kw in node.keywords if kw.arg == "out"), None)
+                    if out is None:
+                        kind = ".missing"
+                    elif isinstance(out, ast.Name):
+                        kind = _out_init(fn, node, out.id)
+                    else:
+                        kind = ".unknown"
+                    calls.append(f"  ⟨{lstr(mod + '.' + label)}, {ci}, {lstr(ch)}, {kind}⟩")
+                    ci += 1
+                if ch in RAW_CTORS:
+                    # the statement that follows the allocation in the same block must fill the array
+                    filled = False
+                    for blk in ast.walk(fn):
+                        for field in ("body", "orelse", "finalbody"):
+                            stmts = getattr(blk, field, None)
+                            if not isinstance(stmts, list):
+                                continue
+                            for i, st in enumerate(stmts):
+                                if isinstance(st, ast.Assign) and st.value is node and len(st.targets) == 1 and isinstance(st.targets[0], ast.Name):
+                                    nm = st.targets[0].id
+                                    # the first later statement that mentions the array (rest of this block, then what
+                                    # follows the enclosing compound statements) must be `<name>.fill(v)`
+                                    rest, cur = list(stmts[i + 1:]), blk
+                                    while cur is not None and cur is not fn:
+                                        nxt = _following(fn, cur)
+                                        if nxt is None:
+                                            cur = _parent_stmt(fn, cur)
+                                            continue
+                                        rest.append(nxt)
+                                        break
+                                    for st2 in rest:
+                                        if any(isinstance(x, ast.Name) and x.id == nm for x in ast.walk(st2)):
+                                            filled = (isinstance(st2, ast.Expr) and isinstance(st2.value, ast.Call)
+                                                      and attr_chain(st2.value.func) == f"{nm}.fill")
+                                            break
+                    allocs.append(f"  ⟨{lstr(mod + '.' + label)}, {ai}, {lstr(ch)}, {'true' if filled else 'false'}⟩")
+                    ai += 1
+    return f"""/- GENERATED by harness/translate.py from boario/*.py and boario/utils/misc.py: every NumPy ufunc call with a `where=`
+   mask (with how the array given as `out=` was created) and every allocation that NumPy leaves uninitialised
+   (with whether the first later statement that mentions the array fills it).  Do not edit. -/
+import Boario.GenTypes
+
+namespace Boario.Gen
+
+def maskedCalls : List MaskedCall := [
+{(',' + chr(10)).join(calls)}
+]
+
+def rawAllocs : List RawAlloc := [
+{(',' + chr(10)).join(allocs)}
+]
+
+end Boario.Gen
+"""
+
+
+def _parent_stmt(fn, blk):
+    for outer in ast.walk(fn):
+        for field in ("body", "orelse", "finalbody"):
+            stmts = getattr(outer, field, None)
+            if isinstance(stmts, list) and blk in stmts:
+                return outer
+    return None
+
+
+def _following(fn, blk):
+    """the statement executed after the compound statement `blk` (one level up), or None"""
+    for outer in ast.walk(fn):
+        for field in ("body", "orelse", "finalbody"):
+            stmts = getattr(outer, field, None)
+            if isinstance(stmts, list) and blk in stmts:
+                i = stmts.index(blk)
+                return stmts[i + 1] if i + 1 < len(stmts) else None
+    return None
+
+
 def regenerate():
     GEN.mkdir(parents=True, exist_ok=True)
     trees = {}
@@ -1241,6 +1363,8 @@ def regenerate():
         "Aggregation.lean": gen_aggregation(trees["simulation"]),
         "Lifecycle.lean": gen_lifecycle(trees["simulation"]),
         "Recover.lean": gen_recover(trees["simulation"]),
+        "Masked.lean": gen_masked({**trees, "utils.misc": ast.parse((REPO / "boario" / "utils" / "misc.py").read_text()),
+                                   "utils.recovery_functions": ast.parse((REPO / "boario" / "utils" / "recovery_functions.py").read_text())}),
         "Formulas.lean": gen_formulas(trees, ast.parse((REPO / "boario" / "utils" / "recovery_functions.py").read_text())),
     }
     changed = []
